@@ -236,6 +236,19 @@ func (p *printer) expr(e J) (string, error) {
 			b = "(" + b + ")"
 		}
 		return a + sp + jstr(e, "t") + sp + b, nil
+	case "xwhere": // recv | lqx_where: "name", "source of the condition"
+		r, err := p.expr(jobj(e["e"]))
+		if err != nil {
+			return "", err
+		}
+		cnd, err := p.expr(jobj(e["c"]))
+		if err != nil {
+			return "", err
+		}
+		if strings.ContainsAny(cnd, "\"'") {
+			return "", fmt.Errorf("xwhere: the condition %q holds a quote", cnd)
+		}
+		return r + sp + "|" + sp + "lqx_where:" + sp + p.literal(vStr(bytesOf(e["var"]))) + "," + sp + p.literal(vStr(cnd)), nil
 	case "filter":
 		recv := jobj(e["e"])
 		r, err := p.expr(recv)
